@@ -32,6 +32,12 @@ CHECKS = {
                   'CrossHair confirms over all paths that entry i is the signature of file i, that failures propagate, and that executor lifetimes are respected.',
              note='Trusted: CrossHair path exhaustion; the executor/as_completed contract stubs.  Real pools and pickling are outside.',
              ref='3/C13'),
+ 'C05': dict(engine='KX', technique='SMT over symbolic read/write sets of the prange iterations of the translated _jaccarddist_parallel (Bernstein conditions) + cell identity against the pairwise kernel with FP operators as uninterpreted functions; CrossHair-driven exhaustive case split of the Python layers with tagged stubs',
+             text='K: for every array content and bounds array within the size bound, distinct iterations of the OpenMP loop touch disjoint shared locations (so every schedule gives the '
+                  'sequential result), every read is in bounds, and out[i] is the pairwise kernel applied to segment i.  X: for every size, chunk size, index selection (repeats), container kind '
+                  'and output buffer within the bound, cell (i,j) of jaccarddist_array/matrix/pairwise holds the value for (queries[i], refs[sel[j]]); pairwise is symmetric with zero diagonal; chunk_slices partitions 0..n.',
+             note='Trusted: as C02; the OpenMP runtime and the compiler honouring Cython\'s private/shared classification; tagged stubs for the Cython entry points in the X part.  HDF5Signatures and real thread counts are outside.',
+             ref='3/C05'),
  'C06': dict(engine='K', technique='bounded model checking: two symbolic executions of calc_signature per obligation (original vs reverse-complemented / reordered / case-flipped input), equality of the accumulated sets decided by SMT; compression choice over a symbolic file header',
              text='Strand symmetry per contig, contig-order independence, signature = union of per-contig signatures (no k-mer across a boundary) and case '
                   'invariance hold for every byte string within the bound; gzip is chosen iff the header is 1f 8b regardless of the name.',
